@@ -571,6 +571,7 @@ PROPS = {
     ),
     "C09": dict(
         lean="AnyDB.Props.C09",
+        lean_extra=["AnyDB.Props.C09Pins"],
         runs=[
             Run("c09", "schedules", [], (52, 3), (52, 1), proj_possible, ["C09", "panic"], c09_features, clean=False),
         ],
@@ -583,6 +584,7 @@ PROPS = {
     ),
     "C10": dict(
         lean="AnyDB.Props.C10",
+        lean_extra=["AnyDB.Props.C10Pins"],
         runs=[
             Run("c10", "schedules", [], (58, 3), (58, 1), proj_after_L, ["C10", "panic"], c10_features, clean=False),
         ],
@@ -791,6 +793,7 @@ def run_property(ctx, cfg, replay):
         per_stream[run.name] = {"cases": len(cases), "requests": sum(len(c["ops"]) - 1 for c in cases), "clean_stream": run.clean}
         evaluations += len(cases)
         nfail = 0
+        nnew = 0
         for c in cases:
             requests += len(c["ops"]) - 1
             if run.features:
@@ -810,8 +813,13 @@ def run_property(ctx, cfg, replay):
             f = analyse_case(run, c)
             if f:
                 nfail += 1
-                if nfail <= 3:
-                    handle_failure(ctx, run, c, f, known, shrink_it=True, origin=f"stream {run.name}")
+                # listed findings are only counted; the first three OTHER failures are minimised and reported
+                if match_known(known, run, c, f) is not None:
+                    handle_failure(ctx, run, c, f, known, shrink_it=False, origin=f"stream {run.name}")
+                else:
+                    nnew += 1
+                    if nnew <= 3:
+                        handle_failure(ctx, run, c, f, known, shrink_it=True, origin=f"stream {run.name}")
         if cases and len(samples) < 3:
             c = cases[len(cases) // 2]
             samples.append({"stream": run.name, "requests": c["ops"][:12], "observations": [x[:160] for x in c["impl"][:3]]})
